@@ -184,10 +184,14 @@ impl<'a> Sim<'a> {
         if prev.is_empty() && d.ty != "m.room.create" {
             return None;
         }
-        let auth = match &d.auth {
+        let mut auth = match &d.auth {
             Some(a) => a.clone(),
             None => self.select_auth(n, &d, &state)?,
         };
+        // the order in which a server lists the auth events is its own business
+        if auth.len() > 1 && self.t.chance(1, 2) {
+            self.t.shuffle(&mut auth);
+        }
         let depth = d.depth.unwrap_or_else(|| prev.iter().filter_map(|p| self.servers[n].have.get(p).map(|x| x.depth)).max().unwrap_or(0) + 1);
         let ts = d.ts.unwrap_or_else(|| self.node_time(n));
         let refs = |ids: &[String], sim: &Sim<'_>| -> J {
